@@ -18,6 +18,8 @@
 //! * call budget: the first call whose index exceeds `budget` panics with payload `HangMarker` (after setting
 //!   `tripped`); from then on every call returns `DevError { k: K_TRIPPED }` without panicking, counting or logging
 //!   (the library's destructors run during unwinding and a second panic would abort the process);
+//! * `shortio = Some(n)` (cfg token `shortio=<n>`): read and write additionally stop at the next multiple of n of the
+//!   absolute device offset (legal short transfers; the model has no such device: such histories carry `nomodel=1`);
 //! * `readonly` (used by the crash probe): `write` fails with `DevError { k: K_READONLY }`.
 use std::cell::RefCell;
 use std::collections::HashMap;
@@ -94,6 +96,8 @@ pub struct DevInner {
     pub budget: u64,
     pub tripped: bool,
     pub readonly: bool,
+    /// legal short transfers: a read / write ends at the next multiple of this (absolute device offset)
+    pub shortio: Option<u64>,
 }
 
 impl DevInner {
@@ -111,6 +115,15 @@ impl DevInner {
             budget: DEFAULT_BUDGET,
             tripped: false,
             readonly: false,
+            shortio: None,
+        }
+    }
+
+    /// Bytes a transfer starting at `pos` may carry before it hits the next `shortio` boundary.
+    fn short_room(&self) -> u64 {
+        match self.shortio {
+            Some(n) => n - self.pos % n,
+            None => u64::MAX,
         }
     }
 
@@ -246,7 +259,7 @@ impl Read for Dev {
     fn read(&mut self, buf: &mut [u8]) -> Result<usize, DevError> {
         self.enter('r')?;
         let mut d = self.inner.borrow_mut();
-        let avail = d.size.saturating_sub(d.pos);
+        let avail = d.size.saturating_sub(d.pos).min(d.short_room());
         let n = (buf.len() as u64).min(avail) as usize;
         let pos = d.pos;
         d.peek(pos, &mut buf[..n]);
@@ -262,7 +275,7 @@ impl Write for Dev {
         if d.readonly {
             return Err(DevError { k: K_READONLY });
         }
-        let avail = d.size.saturating_sub(d.pos);
+        let avail = d.size.saturating_sub(d.pos).min(d.short_room());
         let n = (buf.len() as u64).min(avail) as usize;
         if n > 0 {
             let pos = d.pos;
